@@ -38,6 +38,11 @@ pub enum Crash {
     RngPanicAt(usize),
     /// promise > value: the prover returns Err after the transcript RNG was keyed with the witness
     PromiseAboveValue,
+    /// the statement's first commitment does not match the witness: the prover returns Err early
+    CommitmentMismatch,
+    /// the proof is corrupted (r1 changed) before verification: a recovering verifier computes the
+    /// masks and then returns Err with them live
+    CorruptedBeforeVerify,
 }
 
 #[derive(Clone, Debug, Serialize, Deserialize)]
@@ -143,9 +148,12 @@ fn life_cycle(sc: &Scenario, st: &mut RunStats) -> Vec<Violation> {
         let j = cfg.m - 1;
         promises[j] = Some(sc.wit.values[j] + 1);
     }
-    let commitments: Vec<G> = (0..cfg.m)
+    let mut commitments: Vec<G> = (0..cfg.m)
         .map(|j| G::commit(params.pc_gens(), &Scalar::from(sc.wit.values[j]), &secrets_blind[j][..cfg.ext]).unwrap())
         .collect();
+    if sc.crash == Crash::CommitmentMismatch {
+        commitments[0] = G::sum(&commitments[0], params.h_base());
+    }
     let mode = match sc.crash {
         Crash::RngPanicAt(i) => RngMode::PanicAt(i, sc.rng_seed),
         _ => RngMode::Healthy(sc.rng_seed),
@@ -179,6 +187,9 @@ fn life_cycle(sc: &Scenario, st: &mut RunStats) -> Vec<Violation> {
             if sc.crash == Crash::PromiseAboveValue {
                 st.fault("error_return_after_witness_absorbed");
             }
+            if sc.crash == Crash::CommitmentMismatch {
+                st.fault("error_return_commitment_mismatch");
+            }
         },
         Err(Caught::InjectedRng(i)) => {
             crashed = true;
@@ -187,10 +198,23 @@ fn life_cycle(sc: &Scenario, st: &mut RunStats) -> Vec<Violation> {
         },
         Err(_) => {},
     }
+    if sc.crash == Crash::CorruptedBeforeVerify {
+        if let Some(p) = &proof {
+            if let Some(mut parts) = ProofParts::of::<G>(p) {
+                parts.r1[0] ^= 1;
+                if let Ok(q) = G::from_bytes(&parts.to_bytes()) {
+                    proof = Some(q);
+                }
+            }
+        }
+    }
     let mut recovered = None;
     if let Some(p) = &proof {
         paint_stack(&NEUTRAL_STACK);
         let r = verify_one::<G>(&sc.ctx, &statement, p, action);
+        if sc.crash == Crash::CorruptedBeforeVerify && matches!(r, Ok(Err(_))) {
+            st.fault("verifier_error_return_with_masks_live");
+        }
         if let Ok(Ok(m)) = r {
             if m.iter().any(|x| x.is_some()) {
                 st.probe("mask_recovered");
@@ -364,7 +388,10 @@ fn life_cycle(sc: &Scenario, st: &mut RunStats) -> Vec<Violation> {
 }
 
 fn crash_points(cfg: &Config) -> Vec<Crash> {
-    let mut v = vec![Crash::None, Crash::PromiseAboveValue];
+    let mut v = vec![Crash::None, Crash::PromiseAboveValue, Crash::CommitmentMismatch];
+    if cfg.full_length() >= 2 {
+        v.push(Crash::CorruptedBeforeVerify);
+    }
     for i in 1..=(3 + cfg.rounds()) {
         v.push(Crash::RngPanicAt(i));
     }
@@ -568,6 +595,8 @@ impl Check for C20 {
             "value_pattern_registered",
             "freed_blocks_scanned",
             "several_masks_recovered_in_one_batch",
+            "error_return_commitment_mismatch",
+            "verifier_error_return_with_masks_live",
         ]
     }
 }
